@@ -5,10 +5,16 @@
 
      files    : [path, user flag] of every FileLibrary entry, by id   (run_project)
      reports  : ["os", path] | ["inc", path, fid, start, end] | ["perr", fid]   (run_project)
-     pfiles   : the primary file ids of every report, in order   (front_run: Front.primary_files)
+     full     : [category, code id, code name, [primary file ids]] of every parse-stage report of the project
+                handed to the runner, in order   (front_run: Front.report_of through Front.report_view; the
+                category is printed by Gen.Category.display, id and name are the numbers given on the line)
      user_ids : FileLibrary::user_inputs as built by Front.user_ids   (front_run)
 
-   line:  argv \t libs \t canon \t dirs \t files \t contents        ("-" = empty list)
+   `model_front classes` prints Spec.NoSilentSpec.class_table, one line per failure class:
+     <class> <producer> <shape>     (constructor names)
+
+   line:  argv \t libs \t canon \t dirs \t files \t contents \t pf_id \t pf_name       ("-" = empty list)
+     pf_id, pf_name : the numbers the caller gives to ReportCode::ParseFail's id() and name()
      argv, libs : p;p;...
      canon      : spelling,canonical|-;...
      dirs       : spelling,name,name,...;...
@@ -35,7 +41,7 @@ let split c s = if s = "-" || s = "" then [] else Stdlib.String.split_on_char c 
 
 let parse_line line =
   match Stdlib.String.split_on_char '\t' line with
-  | [argv; libs; canon; dirs; files; contents] ->
+  | [argv; libs; canon; dirs; files; contents; pf_id; pf_name] ->
     let canon = Stdlib.List.map (fun e ->
         match Stdlib.String.split_on_char ',' e with
         | [k; "-"] -> (cstring k, None)
@@ -56,7 +62,8 @@ let parse_line line =
                | _ -> failwith "include") incs))
         | _ -> failwith "contents") (split ';' contents) in
     ({ Includes.fs_canon = canon; fs_dirs = dirs; fs_files = Stdlib.List.map cstring (split ';' files); fs_content = contents },
-     Stdlib.List.map cstring (split ';' argv), Stdlib.List.map cstring (split ';' libs))
+     Stdlib.List.map cstring (split ';' argv), Stdlib.List.map cstring (split ';' libs),
+     z_of_int (int_of_string pf_id), z_of_int (int_of_string pf_name))
   | _ -> failwith "fields"
 
 let q s =
@@ -76,21 +83,47 @@ let show_report = function
 
 let zs l = "[" ^ Stdlib.String.concat ", " (Stdlib.List.map (fun z -> string_of_int (int_of_z z)) l) ^ "]"
 
+let rec coqstring (s : String.string) : string =
+  match s with
+  | String.EmptyString -> ""
+  | String.String (c, r) -> ostring [c] ^ coqstring r
+
+let show_full (((level, id), name), pfiles) =
+  Printf.sprintf "[\"%s\", %d, %d, %s]" (coqstring level) (int_of_z id) (int_of_z name) (zs pfiles)
+
 let run line =
-  let (d, argv, libs) = parse_line line in
-  match Includes.run_project false d argv libs, Front.front_run d argv libs with
-  | Ok s, Ok (pfiles, users) ->
-    Printf.sprintf "{\"status\": \"ok\", \"files\": [%s], \"reports\": [%s], \"pfiles\": [%s], \"user_ids\": %s, \"canon_idempotent\": %b}"
+  let (d, argv, libs, pf_id, pf_name) = parse_line line in
+  match Includes.run_project false d argv libs, Front.front_run pf_id pf_name d argv libs with
+  | Ok s, Ok (full, users) ->
+    Printf.sprintf "{\"status\": \"ok\", \"files\": [%s], \"reports\": [%s], \"full\": [%s], \"user_ids\": %s, \"canon_idempotent\": %b}"
       (Stdlib.String.concat ", " (Stdlib.List.map (fun (p, u) -> Printf.sprintf "[%s, %b]" (q p) u) s.Includes.ps_files))
       (Stdlib.String.concat ", " (Stdlib.List.map show_report s.Includes.ps_reports))
-      (Stdlib.String.concat ", " (Stdlib.List.map zs pfiles))
+      (Stdlib.String.concat ", " (Stdlib.List.map show_full full))
       (zs users)
       (Includes.canon_idempotent_b d)
   | Panic _, _ | _, Panic _ -> "{\"status\": \"panic\"}"
   | OutOfFuel, _ | _, OutOfFuel -> "{\"status\": \"outoffuel\"}"
   | _, _ -> "{\"status\": \"err\"}"
 
+(* constructor names only *)
+let class_name = function
+  | NoSilentSpec.MissingFile -> "MissingFile" | NoSilentSpec.UnreadableFile -> "UnreadableFile"
+  | NoSilentSpec.SyntaxError -> "SyntaxError" | NoSilentSpec.UnresolvedInclude -> "UnresolvedInclude"
+  | NoSilentSpec.DuplicateParameter -> "DuplicateParameter" | NoSilentSpec.LiftFailure -> "LiftFailure"
+  | NoSilentSpec.BadPragma -> "BadPragma" | NoSilentSpec.SeveralMains -> "SeveralMains"
+  | NoSilentSpec.InvalidTupleOrAnonymous -> "InvalidTupleOrAnonymous"
+  | NoSilentSpec.DuplicateDefinition -> "DuplicateDefinition"
+let producer_name = function
+  | NoSilentSpec.ByIncludes -> "ByIncludes" | NoSilentSpec.ByLift -> "ByLift" | NoSilentSpec.ByOtherStage -> "ByOtherStage"
+let shape_name = function
+  | NoSilentSpec.ShOsError -> "ShOsError" | NoSilentSpec.ShParseError -> "ShParseError"
+  | NoSilentSpec.ShIncludeError -> "ShIncludeError" | NoSilentSpec.ShLiftError -> "ShLiftError"
+  | NoSilentSpec.ShOtherUnlabelled -> "ShOtherUnlabelled" | NoSilentSpec.ShOtherInNamedFile -> "ShOtherInNamedFile"
+
 let () =
   match Array.to_list Sys.argv with
   | _ :: "run" :: _ -> each_line (fun l -> try run l with Failure m -> "{\"status\": \"bad-line " ^ m ^ "\"}")
-  | _ -> prerr_endline "usage: model_front run"; exit 2
+  | _ :: "classes" :: _ ->
+    Stdlib.List.iter (fun ((c, p), sh) -> print_endline (class_name c ^ " " ^ producer_name p ^ " " ^ shape_name sh))
+      NoSilentSpec.class_table
+  | _ -> prerr_endline "usage: model_front run|classes"; exit 2
